@@ -30,8 +30,11 @@ func (p pathWithRoot) RootResource() string          { return p.root }
 func (p pathWithRoot) ResourcePath() (string, error) { return p.path, nil }
 
 // Build runs the library's request construction for a GET (body=false) or a JSON PUT (body=true).
-func Build(base *url.URL, root, resourcePath string, query *string, withBody bool) (*Built, *http.Request, error) {
+func Build(base *url.URL, root, resourcePath string, query *string, withBody bool, tunnellingThreshold ...int) (*Built, *http.Request, error) {
 	c := &restli.Client{Client: http.DefaultClient, HostnameResolver: resolver{base}}
+	if len(tunnellingThreshold) > 0 {
+		c.QueryTunnellingThreshold = tunnellingThreshold[0]
+	}
 	var q restli.QueryParamsEncoder
 	if query != nil {
 		q = restli.QueryParamsString(*query)
@@ -59,4 +62,25 @@ func EncodedPath(root, key string) string {
 	w.RawPathSegment("/" + root + "/")
 	w.WriteString(key)
 	return w.Finalize()
+}
+
+// BuildSequence builds one GET request per base URL through ONE client whose resolver owns a single *url.URL and fills
+// it in anew for every call (same pointer, other content).
+func BuildSequence(bases []*url.URL, root, resourcePath string, query *string) ([]*Built, error) {
+	own := new(url.URL)
+	c := &restli.Client{Client: http.DefaultClient, HostnameResolver: resolver{own}}
+	var q restli.QueryParamsEncoder
+	if query != nil {
+		q = restli.QueryParamsString(*query)
+	}
+	var out []*Built
+	for _, b := range bases {
+		*own = *b
+		req, err := restli.NewGetRequest(c, context.Background(), pathWithRoot{root, resourcePath}, q, restli.Method_get)
+		if err != nil {
+			return out, err
+		}
+		out = append(out, &Built{req.URL.Scheme, req.URL.Host, req.URL.EscapedPath(), req.URL.RawQuery, req.URL.String()})
+	}
+	return out, nil
 }
